@@ -6,6 +6,7 @@ import (
 	"bytes"
 	"encoding/json"
 	"os"
+	"syscall"
 	"time"
 
 	sftp "github.com/pkg/sftp"
@@ -136,6 +137,11 @@ type vfFI struct {
 	HasOwner bool
 	UID, GID uint32
 	Ext      []vfExt
+	// Sys() returns a *syscall.Stat_t carrying these (what a handler that wraps real os.FileInfos hands
+	// out); the FileInfoUidGid callbacks, when present, take precedence over it (seed C10-d)
+	SysStat    bool   `json:",omitempty"`
+	SUID, SGID uint32 `json:",omitempty"`
+	Nlink      uint64 `json:",omitempty"`
 }
 
 type vfFileInfo struct{ d vfFI }
@@ -145,7 +151,12 @@ func (f *vfFileInfo) Size() int64        { return f.d.Size }
 func (f *vfFileInfo) Mode() os.FileMode  { return os.FileMode(f.d.Mode) }
 func (f *vfFileInfo) ModTime() time.Time { return time.Unix(f.d.Mtime, 0) }
 func (f *vfFileInfo) IsDir() bool        { return f.Mode().IsDir() }
-func (f *vfFileInfo) Sys() any           { return nil }
+func (f *vfFileInfo) Sys() any {
+	if f.d.SysStat {
+		return &syscall.Stat_t{Uid: f.d.SUID, Gid: f.d.SGID, Nlink: f.d.Nlink}
+	}
+	return nil
+}
 
 type vfFileInfoExt struct{ vfFileInfo }
 
@@ -316,6 +327,11 @@ func vfGenFI(t *rapid.T, label string) vfFI {
 	if rapid.IntRange(0, 3).Draw(t, label+"hasext") == 0 {
 		d.Ext = vfGenExts(t, label+"ext", 3)
 	}
+	if rapid.IntRange(0, 2).Draw(t, label+"sysstat") == 0 {
+		d.SysStat = true
+		d.SUID, d.SGID = vfGenU32(t, label+"suid"), vfGenU32(t, label+"sgid")
+		d.Nlink = uint64(rapid.IntRange(0, 70000).Draw(t, label+"nlink"))
+	}
 	return d
 }
 
@@ -331,6 +347,9 @@ func vfAttrsOfFI(d vfFI) vfAttrs {
 	if d.HasOwner {
 		a.Flags |= vfAttrUIDGID
 		a.UID, a.GID = d.UID, d.GID
+	} else if d.SysStat {
+		a.Flags |= vfAttrUIDGID
+		a.UID, a.GID = d.SUID, d.SGID
 	}
 	if len(d.Ext) > 0 {
 		a.Flags |= vfAttrExtended
